@@ -23,6 +23,7 @@ import (
 	"errors"
 	"fmt"
 	"log/slog"
+	"strconv"
 	"sync/atomic"
 	"time"
 
@@ -103,7 +104,7 @@ func New(c *LockServerConfig) (*LockServer, func(), error) {
 				continue
 			}
 			l.lockTimerMgr.Add(
-				lk.Name()+lk.Key(),
+				timerKey(lk.Name(), lk.Key()),
 				l.onTimeoutFunc(ctx, lk.Name(), lk.Key(), sessionId),
 				c.DefaultLockTimeout,
 			)
@@ -128,6 +129,12 @@ func New(c *LockServerConfig) (*LockServer, func(), error) {
 		tmCloser()
 		lmCloser()
 	}, nil
+}
+
+// timerKey returns the lock timer map key for a lock name and key. The name's length is part of
+// the key so that different (name, key) pairs can never share a timer.
+func timerKey(name string, key string) string {
+	return strconv.Itoa(len(name)) + ":" + name + key
 }
 
 // Lock blocks until the lock is obtained or is canceled / timed out by context
@@ -190,7 +197,7 @@ func (l *LockServer) Lock(ctx context.Context, name string, size *int32, lockTim
 		// Add lock timer if lock timeout is set
 		if lockTimeoutSeconds != nil && *lockTimeoutSeconds > 0 {
 			d := time.Duration(*lockTimeoutSeconds) * time.Second
-			l.lockTimerMgr.Add(name+key, l.onTimeoutFunc(ctx, name, key, sessionId), d)
+			l.lockTimerMgr.Add(timerKey(name, key), l.onTimeoutFunc(ctx, name, key, sessionId), d)
 		}
 	}
 
@@ -230,7 +237,7 @@ func (l *LockServer) Unlock(ctx context.Context, name string, key string) (bool,
 
 	// Remove lock timer. If the timer was not removed before it fired (not stopped),
 	// it will have already unlocked the lock.
-	if stopped := l.lockTimerMgr.Remove(name + key); stopped {
+	if stopped := l.lockTimerMgr.Remove(timerKey(name, key)); stopped {
 		// It was stopped before firing or did not exist. Unlock the lock.
 		unlocked, err = l.lockMgr.Unlock(name, key)
 	} else {
@@ -297,7 +304,7 @@ func (l *LockServer) TryLock(ctx context.Context, name string, size *int32, lock
 		// Add lock timer if lock timeout is set
 		if lockTimeoutSeconds != nil && *lockTimeoutSeconds > 0 {
 			d := time.Duration(*lockTimeoutSeconds) * time.Second
-			l.lockTimerMgr.Add(name+key, l.onTimeoutFunc(ctx, name, key, sessionId), d)
+			l.lockTimerMgr.Add(timerKey(name, key), l.onTimeoutFunc(ctx, name, key, sessionId), d)
 		}
 	}
 
@@ -332,7 +339,7 @@ func (l *LockServer) Renew(ctx context.Context, name string, key string, lockTim
 		"timeout", lockTimeoutSeconds,
 	)
 
-	locked, err := l.lockTimerMgr.Reset(name+key, time.Duration(lockTimeoutSeconds)*time.Second)
+	locked, err := l.lockTimerMgr.Reset(timerKey(name, key), time.Duration(lockTimeoutSeconds)*time.Second)
 
 	if err == timermap.ErrTimerDoesNotExist {
 		err = ErrLockDoesNotExistOrInvalidKey
@@ -427,7 +434,7 @@ func (l *LockServer) DestroySession(ctx context.Context) (sessionId string) {
 				"Unlocked during client session cleanup",
 				"lock", lk.Name(),
 			)
-			l.lockTimerMgr.Remove(lk.Name() + lk.Key())
+			l.lockTimerMgr.Remove(timerKey(lk.Name(), lk.Key()))
 		}
 	}
 
